@@ -116,6 +116,8 @@ def rule_restore(rep, tname):
         rep.ob(R, key, ok,
                "constructor gives `%s`, reset gives `%s` (must be bit-identical expressions over the immutable configuration)" % (show(a_init)[:160], show(a_post)[:160]),
                where_r, sample={"field": key, "init": show(a_init)[:140], "reset": show(a_post)[:140]})
+    rets = [x for x in walk(reset["body"]) if x.get("k") == "return"]
+    rep.ob(R, "%s/reset-single-exit" % tname, not rets, "reset() can return early (line %s): the fields assigned after that point are not restored on that path" % [x.get("ln") for x in rets], where_r)
     # reset must not touch configuration
     bad = sorted(f for f in st.fields if f in immut)
     rep.ob(R, "%s/config-untouched" % tname, not bad, "reset writes configuration fields %s" % bad, where_r)
@@ -146,7 +148,7 @@ def run(rep):
                 rep.ob("R-C10-getters", "%s::%s" % (t, g), fn.get("receiver") == "&self", "getter must take &self", loc(fn))
     rep.guarded("R-C10-getters", getters)
     rep.extra["state_fields_checked"] = total
-    rep.floor("R-C10-restore", 1 + 37 + 7)
+    rep.floor("R-C10-restore", 1 + 37 + 14)
     rep.floor("R-C10-scratch", 7)
     rep.floor("R-C10-getters", 42)
     rep.clause("R-C10-restore", "every field any &mut self method writes is restored by reset() to an expression bit-identical (N_bit) to its constructor initialiser, "
